@@ -18,6 +18,12 @@ from common import Ctx
 from leanbuild import lean_obligations
 
 SPECIAL = [
+    # reference links whose text is laid out over lines / with runs of spaces (shortcut, collapsed and full forms)
+    "See the [foo\nbar] page and [baz   qux][] and [the\ntext][foo bar].\n\n[foo bar]: http://x.y/z\n[baz qux]: http://x.y/q 'T'\n",
+    "- item with [a\n  b] ref\n\n[a b]: <http://x.y/a b>\n",
+    # a rule as the first thing of a '*' item whose marker shares its line with other container markers
+    "> * ---\n> * b\n", "- * ___\n  * x\n", "1. * ***\n   * y\n", "* * ---\n", "> - * ___\n", "* + ---\n* - ___\n", "10. * ---\n",
+
     "```\ncode\n````\n\n{% t %}\n- a\n- b\n{% /t %}\n", "~~~\nx\n~~~~~\n\n<!-- t -->\n| a | b |\n|---|---|\n<!-- /t -->\n", "> ```\n> q\n> `````\n\n{% t %}\n1. a\n{% /t %}\n",
     "> ## H\n\n> q2\n", "> - a\n>\n> # h\n\n> next\n", "- a\n\n  # h\n\n- b\n",
     "x 'a \"b' c\" y\n", "He said \"yes\" \"no\" and 'a' 'b'.\n", "# ****x****\n", "**Title**\n===\n", "Title...\n=====\n", "---\nfoo: bar\n", "+\n", "- # h\n- b\n", "1. a\n1) b\n",
